@@ -184,6 +184,14 @@ def run(ctx: Ctx) -> Outcome:
             out.violations.append(Violation(sig, f"{name} on a tensor of shape {shape}: {msg}", {"kind": "noop", "name": name}))
     for name, msg in mutable_arg_cases():
         out.violations.append(Violation(f"C04|mutable-argument|{name}", f"{name}: {msg}", {"kind": "mutarg", "name": name}))
+    vseen = set()
+    for name, msg in view_or_copy_cases():
+        fam = name.split("|")[0]
+        if fam not in vseen:
+            vseen.add(fam)
+            out.violations.append(Violation(f"C04|view-or-copy|{fam}", f"{name}: {msg}", {"kind": "voc", "name": name}))
+    out.evaluations += 21 * 3 * 2
+    out.stats["view_or_copy_cases"] = 21 * 3 * 2
     for name, msg in dtype_inplace_cases():
         sig = f"C04|dtype-family|{name.split('|')[0]}"
         if sig not in seen:
@@ -301,6 +309,62 @@ def dtype_inplace_cases(only=None):
                 if bad:
                     out.append((name, bad))
                     break
+    return out
+
+
+def view_or_copy_cases(only=None):
+    """every shape-manipulating routine, on operands of several memory layouts, tracked and inside no_autodiff: the
+    result shares memory with its operand exactly when NumPy's does (flatten / copy / astype / repeat / roll never,
+    ravel / reshape only when the layout allows it, the transposing routines always), and in tracked mode it names the
+    operand as its `.base` exactly then.  -> [(name, message)]"""
+    import mygrad as mg
+
+    ops = [("flatten", lambda t: t.flatten(), lambda a: a.flatten()),
+           ("ravel", lambda t: mg.ravel(t), lambda a: np.ravel(a)),
+           ("ravel-method", lambda t: t.ravel(), lambda a: a.ravel()),
+           ("reshape(-1)", lambda t: t.reshape(-1), lambda a: a.reshape(-1)),
+           ("reshape(3,2)", lambda t: mg.reshape(t, (3, 2)), lambda a: np.reshape(a, (3, 2))),
+           ("T", lambda t: t.T, lambda a: a.T),
+           ("transpose", lambda t: mg.transpose(t), lambda a: np.transpose(a)),
+           ("swapaxes", lambda t: mg.swapaxes(t, 0, 1), lambda a: np.swapaxes(a, 0, 1)),
+           ("moveaxis", lambda t: mg.moveaxis(t, 0, 1), lambda a: np.moveaxis(a, 0, 1)),
+           ("expand_dims", lambda t: mg.expand_dims(t, 1), lambda a: np.expand_dims(a, 1)),
+           ("atleast_3d", lambda t: mg.atleast_3d(t), lambda a: np.atleast_3d(a)),
+           ("x[0]", lambda t: t[0], lambda a: a[0]),
+           ("x[:, ::2]", lambda t: t[:, ::2], lambda a: a[:, ::2]),
+           ("x[[0, 1]]", lambda t: t[[0, 1]], lambda a: a[[0, 1]]),
+           ("x[x > 2]", lambda t: t[t.data > 2], lambda a: a[a > 2]),
+           ("copy", lambda t: t.copy(), lambda a: a.copy()),
+           ("astype(f64)", lambda t: t.astype(np.float64), lambda a: a.astype(np.float64)),
+           ("repeat", lambda t: mg.repeat(t, 1, axis=0), lambda a: np.repeat(a, 1, axis=0)),
+           ("roll", lambda t: mg.roll(t, 0), lambda a: np.roll(a, 0)),
+           ("positive", lambda t: +t, lambda a: +a),
+           ("sum(())", lambda t: mg.sum(t, axis=()), lambda a: np.sum(a, axis=()))]
+    layouts = [("C", lambda a: a), ("F", lambda a: np.asfortranarray(a)), ("strided", lambda a: np.repeat(a, 2, axis=1)[:, ::2])]
+    out = []
+    for (lname, lay), (name, f, g), tracked in [(l, o, t) for l in layouts for o in ops for t in (True, False)]:
+        nm = f"{name}|{lname}|{'tracked' if tracked else 'no_autodiff'}"
+        if only is not None and nm != only:
+            continue
+        a = lay(np.arange(6.0).reshape(2, 3) + 1)
+        x = mg.tensor(a, copy=False) if lname == "strided" else mg.tensor(a)
+        a = x.data
+        try:
+            if tracked:
+                y = f(x)
+            else:
+                with mg.no_autodiff:
+                    y = f(x)
+            b = g(a)
+        except Exception as e:  # noqa: BLE001
+            out.append((nm, f"raised {type(e).__name__}: {str(e)[:60]}"))
+            continue
+        shares = bool(np.shares_memory(b, a))
+        got = bool(np.shares_memory(y.data, x.data))
+        if got != shares:
+            out.append((nm, f"the result {'shares' if got else 'does not share'} memory with its operand; NumPy's {'does' if shares else 'does not'}"))
+        elif tracked and (y.base is x) != shares and y is not x:
+            out.append((nm, f"the result {'shares' if shares else 'does not share'} memory with x but its .base is {'x' if y.base is x else 'not x'}"))
     return out
 
 
@@ -539,6 +603,10 @@ def replay(data) -> bool:
     r = data["replay"]
     if r.get("kind") == "dtypefam":
         f = dtype_inplace_cases(only=r["name"])
+        print(f)
+        return bool(f)
+    if r.get("kind") == "voc":
+        f = view_or_copy_cases(only=r["name"])
         print(f)
         return bool(f)
     if r.get("kind") == "mutarg":
